@@ -79,3 +79,57 @@ package daemon
 
 //@ # the node agent reports a teardown it did not process itself only for a pod it verified to be gone
 //@ guard mapupdate CNIStatus in cleanRuntimeNode: key != "deleted" || c03absent
+
+//@ for C04
+
+//@ # ---- one request per pod at a time: a request that finds the pod's in-flight marker set has no effect ----
+//@ ghost c04busy bool = false
+//@ ghost c04put bool = false
+//@ ghost c04putcid ref
+//@ ghost c04putkey string
+//@ ghost c04taken bool = false
+//@ ghost c04allocfailed bool = false
+//@ ghost c04released bool = false
+
+//@ func networkService.AllocIP
+//@   requires n != nil && r != nil && n.k8s != nil && n.eniMgr != nil && n.resourceDB != nil
+//@   at call Map.LoadOrStore: ghost c04busy = result1
+//@   at call Manager.Allocate: ghost c04taken = true
+//@   at call Manager.Allocate: ghost c04allocfailed = (result1 != nil)
+//@   at call Manager.Release: ghost c04released = true
+//@   at call Put: ghost c04put = true
+//@   at call Put: ghost c04putkey = arg0
+//@   at call Put: ghost c04putcid = newRes.ContainerID
+//@   # a rejected request answers with the retryable 'processing' error
+//@   ensures c04busy ==> result0 == nil && result1 != nil
+//@   # an acknowledged ADD has written the pod's record, keyed by the pod, carrying this request's sandbox id
+//@   ensures result1 == nil ==> c04put && c04putcid == &r.K8SPodInfraContainerId
+//@   # an ADD whose allocation fails hands back what it took
+//@   ensures c04allocfailed ==> c04released && result1 != nil
+
+//@ # a rejected request touches nothing: not the pool, not the store, not the marker of the request in flight
+//@ guard call Map.Delete in AllocIP: !c04busy
+//@ guard call Manager.Allocate in AllocIP: !c04busy
+//@ guard call Manager.Release in AllocIP: !c04busy
+//@ guard call Put in AllocIP: !c04busy
+//@ guard call Map.Delete in ReleaseIP: !c04busy
+//@ guard call Manager.Release in ReleaseIP: !c04busy
+//@ guard call deletePodResource in ReleaseIP: !c04busy
+//@ guard call Map.Delete in GetIPInfo: !c04busy
+
+//@ func networkService.ReleaseIP
+//@   requires n != nil && r != nil && n.k8s != nil && n.eniMgr != nil && n.resourceDB != nil
+//@   at call Map.LoadOrStore: ghost c04busy = result1
+//@   ensures c04busy ==> result0 == nil && result1 != nil
+
+//@ # a DEL carrying another sandbox id than the recorded one releases nothing and keeps the record
+//@ guard call Manager.Release in ReleaseIP: oldRes.ContainerID == nil || r.K8SPodInfraContainerId == *oldRes.ContainerID
+//@ guard call deletePodResource in ReleaseIP: oldRes.ContainerID == nil || r.K8SPodInfraContainerId == *oldRes.ContainerID
+
+//@ func networkService.GetIPInfo
+//@   requires n != nil && r != nil && n.k8s != nil && n.resourceDB != nil
+//@   at call Map.LoadOrStore: ghost c04busy = result1
+//@   ensures c04busy ==> result0 == nil && result1 != nil
+
+//@ # a status query carrying another sandbox id than the recorded one returns no allocation
+//@ guard store GetInfoReply.NetConfs in GetIPInfo: len(value) == 0 || oldRes.ContainerID == nil || r.K8SPodInfraContainerId == *oldRes.ContainerID
